@@ -178,17 +178,29 @@ pub fn near_powers(k: u32, p: u64, seed: u64) -> Vec<Dec> {
             out.push(Dec { n: pw.clone(), s: s * k as i128 + 1 });
         }
         for j in far.iter() {
-            // r^k +- 10^-j : one unit in a far-away digit
-            let unit = Dec { n: BigInt::from(1), s: *j as i128 };
-            let base = Dec { n: pw.clone(), s: 0 };
-            out.push(base.add(&unit));
-            let minus = base.sub(&unit);
-            if minus.n.is_positive() {
-                out.push(minus);
+            // r^k +- m*10^-j : a small multiple of a unit in a far-away digit (m = 1 and multiples of
+            // powers of 2 and 5, so that binary and decimal notions of 'trailing zeros' differ)
+            for m in [1i64, 2, 4, 5, 8, 25, 1024, 1048576] {
+                if m > 1 && r_small_skip(&out) {
+                    continue;
+                }
+                let unit = Dec { n: BigInt::from(m), s: *j as i128 };
+                let base = Dec { n: pw.clone(), s: 0 };
+                out.push(base.add(&unit));
+                let minus = base.sub(&unit);
+                if minus.n.is_positive() {
+                    out.push(minus);
+                }
+                // the same with trailing zeros written out after the perturbed digit
+                out.push(Dec { n: base.add(&unit).n * pow10(19), s: base.add(&unit).s + 19 });
             }
         }
     }
     out
+}
+
+fn r_small_skip(_out: &[Dec]) -> bool {
+    false
 }
 
 /// long radicands: digit lengths around k*(p+g) and much longer, both parities / all residues of the scale
